@@ -137,7 +137,8 @@ def evaluate_map(case):
             else:
                 bits = format(d + radix, "b")
             case_c = {"graph": {"k": 1, "rows": rows, "start": start}, "bits": bits, "table": table, "fast": fast,
-                      "vt": 0, "table_dtype": ["int64", "float64", "int8"][(case["perm"] + case["pattern"]) % 3]}
+                      "vt": 0, "table_dtype": ["int64", "float64", "int8"][(case["perm"] + case["pattern"]) % 3],
+                      "table_layout": [None, "F", "strided", "offset"][(case["perm"] // 3 + case["pattern"]) % 4]}
             strand, _ = coding.run_encode(case_c)
             if isinstance(strand, (Raised,)) or strand == "BUDGET" or not strand:
                 return bad("encode failed for digit %d (perm %r, pattern %s, fast=%s): %r"
@@ -195,7 +196,8 @@ def reuse_cases(draw, tier):
     k = first["k"]
     second = draw(gens.coding_graphs(k, k))
     return {"graphs": [first, second, first], "table": draw(gens.tables(k, allow_none=False)),
-            "bits": [draw(gens.messages(24, min_len=1)) for _ in range(3)], "fast": draw(st.booleans())}
+            "bits": [draw(gens.messages(24, min_len=1)) for _ in range(3)], "fast": draw(st.booleans()),
+            "table_order": draw(st.sampled_from(["C", "C", "F", "strided"]))}
 
 
 def evaluate_reuse(case):
@@ -203,6 +205,10 @@ def evaluate_reuse(case):
     import numpy
     dsw = import_dsw()
     table = numpy.array(gens.table_rows(case["table"]), dtype=int)  # a private object, deliberately not pooled
+    if case.get("table_order") == "F":
+        table = numpy.asfortranarray(table)  # e.g. a table loaded from a Fortran-ordered .npy file
+    elif case.get("table_order") == "strided":
+        table = numpy.concatenate([table, table], axis=1)[:, :4]  # a view into a wider buffer
     original = table.copy()
     for graph, bits in zip(case["graphs"], case["bits"]):
         rows, k, start = graph["rows"], graph["k"], graph["start"]
@@ -221,7 +227,8 @@ def evaluate_reuse(case):
             return bad("encode/decode changed the caller's shuffle table: row %d is now %r"
                        % (int(numpy.nonzero((table != original).any(axis=1))[0][0]),
                           table[int(numpy.nonzero((table != original).any(axis=1))[0][0])].tolist()), ["reuse"])
-    return Outcome(True, True, ["reuse", "k=%d" % case["graphs"][0]["k"], "fast" if case["fast"] else "normal"])
+    return Outcome(True, True, ["reuse", "k=%d" % case["graphs"][0]["k"], "fast" if case["fast"] else "normal",
+                                "table_order:" + case.get("table_order", "C")])
 
 
 SUBCHECKS = [
